@@ -9,6 +9,7 @@ import (
 	"os"
 	"runtime"
 	"runtime/debug"
+	"runtime/metrics"
 	"strings"
 	"sync/atomic"
 	"testing"
@@ -43,7 +44,8 @@ import (
 const (
 	c12HeaderLen  = 36
 	c12ArenaBytes = 17 * vlib.PageSize // 64 KiB + a page
-	c12MaxStack   = 256 << 20
+	c12MaxStack   = 512 << 20
+	c12StackAlarm = 128 << 20 // far above any recursion that is linear in a 64 KiB input
 	c12MemLimit   = 3 << 30
 )
 
@@ -163,9 +165,10 @@ func c12Disarm() { atomic.StoreInt64(&c12CallStart, 0) }
 func c12StartWatchdog(run *vlib.Run) (stop func()) {
 	done := make(chan struct{})
 	go func() {
-		tick := time.NewTicker(100 * time.Millisecond)
+		tick := time.NewTicker(20 * time.Millisecond)
 		defer tick.Stop()
 		n := 0
+		stacks := []metrics.Sample{{Name: "/memory/classes/heap/stacks:bytes"}}
 		for {
 			select {
 			case <-done:
@@ -176,12 +179,24 @@ func c12StartWatchdog(run *vlib.Run) (stop func()) {
 					continue
 				}
 				what, _ := c12CallWhat.Load().(string)
+				// Runaway recursion: the runtime would end the process with "stack
+				// overflow" followed by so many frames that vcheck no longer sees that
+				// line in the tail of the output; say it first, briefly, and stop. (If
+				// the recursion wins the race the runtime's own fatal error stands.)
+				if metrics.Read(stacks); stacks[0].Value.Kind() == metrics.KindUint64 && stacks[0].Value.Uint64() > c12StackAlarm {
+					fmt.Fprintf(os.Stderr, "fatal error: stack overflow (C12 stack monitor: goroutine stacks passed %d MiB in %s: unbounded recursion)\n", c12StackAlarm>>20, what)
+					os.Exit(3)
+				}
+				if n%5 != 0 {
+					n++
+					continue
+				}
 				if el := time.Now().UnixNano() - st; el > atomic.LoadInt64(&c12CallLimit) {
 					c12NoteWatchdog(run)
 					// (no duration in the text: vcheck builds the signature from it)
 					run.Watchdog(what + " did not return within its time bound")
 				}
-				if n++; n%5 == 0 {
+				if n++; n%25 == 1 {
 					var ms runtime.MemStats
 					runtime.ReadMemStats(&ms)
 					if ms.HeapAlloc > c12MemLimit {
@@ -699,7 +714,7 @@ func TestVerifC12(t *testing.T) {
 	defer run.Finish()
 	run.SetRule("inputs = structure-aware mutations (truncation by offset class, bit flips, opcode-alphabet substitution, package-length and field-width corruption in all four encodings, name-string duplication/self/ancestor references, splices between programs, operand deletion/duplication, snippet insertion, field-element corruption; 1-3 per input, placed by a tolerant structure scanner) of the three shipped tables, of ~40 hand-assembled programs and of programs from an opcode-table-driven generator (+ any source registered in c12ExtraSources), plus unmutated generated programs and random short strings; 35% are parsed into a tree that already holds one or two good tables; non-trivial = the parser created >= 3 objects from the input before accepting or rejecting it (hand programs only when mutated); distinct = distinct (payload bytes, prelude)")
 	run.Assume("the table header is trusted (Length = header + payload; a few inputs use a Length below the header size); tables larger than 64 KiB are not generated")
-	run.Assume("a stack of " + fmt.Sprint(c12MaxStack>>20) + " MiB is enough for any recursion whose depth is linear in a 64 KiB input; exceeding it is reported as stack overflow")
+	run.Assume("goroutine stacks of " + fmt.Sprint(c12StackAlarm>>20) + " MiB are enough for any recursion whose depth is linear in a 64 KiB input; passing that mark (or the runtime's limit of " + fmt.Sprint(c12MaxStack>>20) + " MiB) is reported as stack overflow")
 	run.Assume("wall clock is used only by the watchdog (2 s + 1 ms/byte; a firing is re-run alone with 20x before vcheck reports it)")
 
 	if n := c12WatchdogFirings(run); n >= c12MaxWatchdogFirings {
@@ -710,11 +725,6 @@ func TestVerifC12(t *testing.T) {
 		t.Fatalf("C12: cannot load the shipped tables: %v", err)
 	}
 	defer debug.SetMaxStack(debug.SetMaxStack(c12MaxStack))
-	if os.Getenv("VERIF_C12_TRACEBACK") == "" {
-		// vcheck classifies a dead child by the tail of its output; the frames of an
-		// exhausted stack would push the "fatal error:" line out of that tail
-		debug.SetTraceback("none")
-	}
 	defer debug.SetPanicOnFault(debug.SetPanicOnFault(true))
 	defer c12StartWatchdog(run)()
 
